@@ -12,6 +12,12 @@ GROUPS = {'app1': {'p1': {}, 'p2': {'numprocs': 2}}, 'app2': {'q1': {}}}
 STRATEGY_DELTAS = [('auto-fencing', None), ('starting', 'LESS_LOADED'), ('starting', 'MOST_LOADED'),
                    ('conciliation', 'SENICIDE'), ('conciliation', 'STOP'), ('supvisors_failure', 'RESYNC'),
                    ('supvisors_failure', 'SHUTDOWN')]
+# rules with operational status formulas made of patterns (evaluated on every process event, addition and removal)
+FORMULA_RULES = ('<?xml version="1.0" encoding="UTF-8" standalone="no"?>\n<root>\n'
+                 '<application name="app1"><start_sequence>1</start_sequence>'
+                 '<operational_status>all(\'p2_.*\') and any(\'p.*\')</operational_status></application>\n'
+                 '<application name="app2"><operational_status>any(\'q.*\') or \'q1\'</operational_status>'
+                 '</application>\n</root>')
 # PROCESS_ADDED is deliberately loaded whatever the state of the peer (check_state=False) and is not in the statement
 EVENT_PUBLICATIONS = (PROCESS, PROCESS_REMOVED, PROCESS_DISABILITY)
 
@@ -60,7 +66,12 @@ class FuzzRun:
                         'inactivity_ticks': rng.choice([2, 3]),
                         'starting_strategy': 'CONFIG', 'conciliation_strategy': 'USER',
                         'supvisors_failure_strategy': 'CONTINUE'}
-        self.l2 = l2 = L2(n=self.n, options=self.options, groups=GROUPS, seed=self.case['seed'])
+        kw = {}
+        if self.knobs.get('formula_rules_p') and rng.random() < self.knobs['formula_rules_p']:
+            kw['rules_xml'] = FORMULA_RULES
+            self.options['rules'] = 'formulas'
+        self.l2 = l2 = L2(n=self.n, options={k: v for k, v in self.options.items() if k != 'rules'}, groups=GROUPS,
+                          seed=self.case['seed'], **kw)
         w = l2.world
         try:
             self.peers = {}    # identifier -> monitor record
@@ -208,6 +219,11 @@ class FuzzRun:
         if self.knobs.get('unknown_process_p') and rng.random() < self.knobs['unknown_process_p']:
             # an event about a process, or an application, that the local instance has never heard of
             namespec = rng.choice(['app1:ghost', 'ghost:p1', 'app2:p1'])
+        extra = None
+        if self.knobs.get('extra_process_p') and rng.random() < self.knobs['extra_process_p']:
+            # a process that only some peers know (added and removed at run time there), matching the patterns
+            namespec = extra = rng.choice(['app1:p2_03', 'app1:p2_03', 'app2:q2'])
+            self.count('events_about_a_process_known_to_peers_only')
         if header == PROCESS:
             state = rng.choice([0, 10, 20, 20, 100, 200])
             if rec['state'] in ('CHECKED', 'RUNNING'):
@@ -222,6 +238,8 @@ class FuzzRun:
             if header == PROCESS_DISABILITY and ':' in namespec and namespec.split(':')[1] in ('ghost',) or \
                     namespec.startswith('ghost'):
                 body['group'], body['name'] = namespec.split(':')
+            if extra:
+                body['group'], body['name'] = extra.split(':')
             if header == PROCESS_DISABILITY:
                 body['disabled'] = rng.random() < 0.5
         elif header == PROCESS_REMOVED:
